@@ -1049,8 +1049,10 @@ func (r *Reconciler) updateTransactionStatus(ctx context.Context, transaction *c
 			log.Errorf("Failed updating Transaction %s status", transaction.ID, err)
 			return err
 		}
+		// The write did not happen: end this reconciliation (it is retried on fresh state) instead of
+		// carrying on with the next write of the same step as if it had.
 		log.Warnf("Write conflict updating Transaction %s status", transaction.ID, err)
-		return nil
+		return err
 	}
 	return nil
 }
@@ -1063,8 +1065,10 @@ func (r *Reconciler) updateConfigurationStatus(ctx context.Context, configuratio
 			log.Errorf("Failed updating Configuration '%s' status", configuration.ID, err)
 			return err
 		}
+		// The write did not happen: end this reconciliation (it is retried on fresh state) instead of
+		// carrying on with the next write of the same step as if it had.
 		log.Warnf("Write conflict updating Configuration '%s' status", configuration.ID, err)
-		return nil
+		return err
 	}
 	return nil
 }
